@@ -173,6 +173,28 @@ func buildResponse(rc respCase) (gldap.Response, []byte, error) {
 			opts = append(opts, gldap.WithAttributes(m))
 		}
 	}
+	// the options live in a slice with spare capacity, and the same constructor is first called with a proper prefix
+	// of them (result discarded): a constructor must not write into its caller's slice
+	if len(opts) > 0 {
+		all := make([]gldap.Option, len(opts), len(opts)+4)
+		copy(all, opts)
+		k := int(crc32.ChecksumIEEE([]byte(rc.ctor+strings.Join(rc.opts, " ")))) % len(opts)
+		switch rc.ctor {
+		case "general":
+			_ = req.NewResponse(all[:k]...)
+		case "bind":
+			_ = req.NewBindResponse(all[:k]...)
+		case "extended":
+			_ = req.NewExtendedResponse(all[:k]...)
+		case "done":
+			_ = req.NewSearchDoneResponse(all[:k]...)
+		case "entry":
+			_ = req.NewSearchResponseEntry(rc.dn, all[:k]...)
+		case "modify":
+			_ = req.NewModifyResponse(all[:k]...)
+		}
+		opts = all
+	}
 	var resp gldap.Response
 	type coder interface{ SetResultCode(int) }
 	type diager interface{ SetDiagnosticMessage(string) }
